@@ -1,7 +1,9 @@
 import Operon.Lemmas.C10
 import Operon.Lemmas.C10Conc
 import Operon.Lemmas.C10Transfer
+import Operon.Lemmas.C10Regex
 import Operon.Gen.GatesConsts
+import Operon.Gen.GatesRegex
 import Operon.Gen.GatesTranslated
 /-!
 # C10 — prompt-injection gates block every signature hit, stay blocked, and never crash
@@ -750,6 +752,77 @@ theorem c10_shipped_membrane_blocks_own_signatures (env : Env) (m' : Membrane) (
     rw [hsame.2] at this
     omega
 
+/-! ## The shipped regex signatures (their parse trees are regenerated from the shipped tables on every run) -/
+
+/-- every regex of the two shipped tables, as (pattern text, parse tree) -/
+def shippedRegexes : List (Str × Rx.Re) := Operon.Gen.Gates.membraneRegexes ++ Operon.Gen.Gates.innateRegexes
+
+/-- a regex engine that, on the shipped patterns, is `re` as modelled: `env.rx pattern text` is a search with the
+    pattern's parse tree under the character tables `ce` -/
+def RxShipped (env : Env) (ce : Rx.CharEnv) : Prop :=
+  ∀ e ∈ shippedRegexes, ∀ c, env.rx e.1 c = Rx.search ce e.2 c
+
+/-- **The regex tables of the two generated files are the same tables**: the patterns of
+    `Operon.Gen.Gates.membraneRegexes` / `innateRegexes` are exactly the regex entries of the shipped signature tables
+    (`membraneBuiltins` / `innateBuiltins`), in order; there is at least one of each. -/
+theorem c10_shipped_regex_tables_consistent :
+    Operon.Gen.Gates.membraneRegexes.map (·.1) =
+      ((Operon.Gen.Gates.membraneBuiltins.getD []).filter (·.2.2)).map (·.1) ∧
+    Operon.Gen.Gates.innateRegexes.map (·.1) =
+      ((Operon.Gen.Gates.innateBuiltins.getD []).filter (·.2.2)).map (·.1) ∧
+    Operon.Gen.Gates.membraneBuiltins.isSome = true ∧ Operon.Gen.Gates.innateBuiltins.isSome = true ∧
+    0 < Operon.Gen.Gates.membraneRegexes.length ∧ 0 < Operon.Gen.Gates.innateRegexes.length := by
+  decide
+
+/-- **Every shipped regex signature stays matched under separated embedding** — for every shipped regex (membrane
+    and innate table of the current source), every text it matches, every surrounding text whose code points next to
+    the text are not word characters (or absent), and whatever `re`'s character tables are: the regex still matches
+    `pre ++ text ++ post`.  The proof uses that the shipped patterns consist of literals, classes, alternation,
+    repetition and `\b` only — no `^`, `$`, `\A`, `\Z`, look-around, back-reference or compile flag beyond
+    IGNORECASE (checked on the regenerated parse trees; this is what fails when a shipped pattern is anchored). -/
+theorem c10_shipped_regexes_embedding_stable (ce : Rx.CharEnv) (e : Str × Rx.Re) (he : e ∈ shippedRegexes)
+    (text pre post : Str) (hsep : Rx.Separated ce pre post) (h : Rx.search ce e.2 text = true) :
+    Rx.search ce e.2 (pre ++ text ++ post) = true := by
+  have hall : ∀ e ∈ shippedRegexes, e.2.anchorFree = true := by decide
+  exact Rx.search_embedding_stable ce e.2 (hall e he) text pre post hsep h
+
+/-- **Membrane, embedding, shipped regexes without hypothesis**: with `re` as modelled on the shipped patterns, a
+    separated embedding never lowers the level and a blocked input stays blocked; a hypothesis remains only for
+    regex signatures that are NOT shipped (custom, learned, imported ones — the user's regex). -/
+theorem c10_membrane_shipped_embedding (env : Env) (ce : Rx.CharEnv) (hrx : RxShipped env ce)
+    (m m' : Membrane) (now' : Nat) (c pre post : Str) (hsep : Rx.Separated ce pre post)
+    (hother : ∀ s ∈ m.active, s.isRegex = true → s.pat ∉ shippedRegexes.map (·.1) →
+      env.rx s.pat c = true → env.rx s.pat (pre ++ c ++ post) = true) :
+    scanLevel env m.active c ≤ scanLevel env m.active (pre ++ c ++ post) ∧
+    (¬ scanLevel env m.active c < m.threshold → m'.active = m.active ∧ m'.threshold = m.threshold →
+      (m'.filter env now' (pre ++ c ++ post)).2.decision.allowed = false) := by
+  apply c10_membrane_embedding_monotone
+  intro s hs hr hm
+  by_cases hsh : s.pat ∈ shippedRegexes.map (·.1)
+  · obtain ⟨e, he, hpe⟩ := List.mem_map.mp hsh
+    rw [← hpe] at hm ⊢
+    rw [hrx e he] at hm ⊢
+    exact c10_shipped_regexes_embedding_stable ce e he c pre post hsep hm
+  · exact hother s hs hr hsh hm
+
+/-- **Innate filter, embedding, shipped regexes without hypothesis**: the same for `InnateImmunity.check` — an input
+    blocked by a pattern at or above the severity threshold stays blocked under separated embedding. -/
+theorem c10_innate_shipped_embedding (env : Env) (ce : Rx.CharEnv) (hrx : RxShipped env ce)
+    (im im' : Innate) (now' : Nat) (c pre post : Str) (hsep : Rx.Separated ce pre post)
+    (hblocked : ∃ s ∈ im.patterns, s.matches env c = true ∧ im.sevThreshold ≤ s.level)
+    (hsame : im'.patterns = im.patterns ∧ im'.sevThreshold = im.sevThreshold)
+    (hother : ∀ s ∈ im.patterns, s.isRegex = true → s.pat ∉ shippedRegexes.map (·.1) →
+      env.rx s.pat c = true → env.rx s.pat (pre ++ c ++ post) = true) :
+    ∀ r', (im'.check env now' (pre ++ c ++ post)).2 = .ok r' → r'.allowed = false := by
+  apply (c10_innate_case_and_embedding env im im' now' c hblocked hsame).2 pre post
+  intro s hs hr hm
+  by_cases hsh : s.pat ∈ shippedRegexes.map (·.1)
+  · obtain ⟨e, he, hpe⟩ := List.mem_map.mp hsh
+    rw [← hpe] at hm ⊢
+    rw [hrx e he] at hm ⊢
+    exact c10_shipped_regexes_embedding_stable ce e he c pre post hsep hm
+  · exact hother s hs hr hsh hm
+
 /-! ## The translated source agrees with the model
 
 `Operon/Gen/GatesTranslated.lean` is regenerated from the Python AST of `membrane.py` / `innate.py` by
@@ -1017,5 +1090,23 @@ example : (⟨[106, 97, 105, 108, 98, 114, 101, 97, 107], 3, false⟩ : Sig) ∈
     shippedMembrane.threshold ≤ 3 ∧
     isInfix (lowerS env0 [106, 97, 105, 108, 98, 114, 101, 97, 107])
       (lowerS env0 [77, 121, 32, 74, 65, 73, 76, 66, 82, 69, 65, 75, 32, 112]) = true := by decide
+
+/-- `c10_shipped_regexes_embedding_stable`: the role-injection regex of the shipped membrane table is in the list,
+    "Human:" matches it, "ok.\nHuman: x" is a separated embedding ('\n' before, ' ' after) and matches as well;
+    and an anchored variant `^\s*(?:Human|Assistant):` is NOT anchor-free and does lose the embedded text -/
+example : ([72, 117, 109, 97, 110, 58, 124, 65, 115, 115, 105, 115, 116, 97, 110, 116, 58] : Str) ∈ shippedRegexes.map (·.1) := by
+  decide
+example : (shippedRegexes.any fun e => Rx.search Rx.stdEnv e.2 [72, 117, 109, 97, 110, 58] &&
+      Rx.search Rx.stdEnv e.2 ([111, 107, 46, 10] ++ [72, 117, 109, 97, 110, 58] ++ [32, 120])) = true ∧
+    Rx.Separated Rx.stdEnv [111, 107, 46, 10] [32, 120] :=
+  ⟨by decide, by decide, by decide⟩
+example : (fun r : Rx.Re => r.anchorFree = false ∧ Rx.search Rx.stdEnv r [72, 117, 109, 97, 110, 58] = true ∧
+      Rx.search Rx.stdEnv r ([111, 107, 46, 10] ++ [72, 117, 109, 97, 110, 58] ++ [32, 120]) = false)
+    (.seq (.at .bos) (.seq (.rep 0 none (.set false [.cat .space false]))
+      (.seq (.alt (.seq (.lit 72) (.seq (.lit 117) (.seq (.lit 109) (.seq (.lit 97) (.lit 110)))))
+                  (.seq (.lit 65) (.seq (.lit 115) (.seq (.lit 115) (.seq (.lit 105) (.seq (.lit 115) (.seq (.lit 116)
+                    (.seq (.lit 97) (.seq (.lit 110) (.lit 116))))))))))
+            (.lit 58)))) := by
+  decide
 
 end Operon.Gates
